@@ -13,6 +13,7 @@ from .interp_keys import nk
 from .vals import EMPTY, NONE, UNKNOWN, Val, join, joinall, mk_bool, mk_int, mk_str
 
 KRANK = {"N": 0, "I": 1, "Z": 2, "Q": 3, "L": 3.5, "U": 4, "F": 5}  # L: an integer obtained by truncating a library float
+IMMUTABLE_BUILTIN_TAGS = {"cls:int": "int", "cls:float": "float", "cls:bool": "int", "cls:str": "str", "cls:Fraction": "number", "cls:complex": "number", "cls:tuple": "tuple"}
 NUMERIC_TAGS = {
     "cls:int": {"I", "Z", "L"},
     "cls:np.integer": {"I", "Z", "L"},
@@ -591,6 +592,9 @@ class ModelsMixin:
                 ins = {"inst:" + t[4:] for t in tags if t[4:] in self.prog.classes}
                 if ins:
                     keep = (keep - {"?"}) | ins
+                elif tags and all(t in IMMUTABLE_BUILTIN_TAGS for t in tags):
+                    # isinstance(x, int) holds: x is an immutable number / string / tuple, whatever it was declared as
+                    keep = (keep - {"?"}) | {IMMUTABLE_BUILTIN_TAGS[t] for t in tags}
             if not keep and v.ty:
                 return None
             nv = v.with_(ty=keep if keep else v.ty, kind=nkind)
